@@ -84,6 +84,9 @@ def environment(rnd):
             While(Bin('<', V('limit'), P('limit')), [Assign(V('limit'), Bin('+', V('limit'), I(1)))]),
             If(Bin('>', P('n'), I(k3)), [Assign(V('n'), Bin('+', V('n'), fcall('shadow', n=Bin('-', P('n'), I(2)), limit=I(1))))]),
             Ret(Bin('+', Bin('+', Bin('*', V('n'), I(3)), Bin('*', P('n'), I(2))), V('limit')))]},
+        # a function with an effect on the model that yields a boolean: both operands of and / or are evaluated
+        'touch': {'params': ['n'], 'ret': 'boolean', 'ptypes': {'n': 'integer'}, 'body': [
+            Create('t', 'B'), Assign(Field(V('t'), 'N'), P('n')), Ret(Bin('>', P('n'), I(k3)))]},
         'lim': {'params': ['LIMIT', 's'], 'ret': 'integer', 'ptypes': {'LIMIT': 'integer', 's': 'string'}, 'body': [
             Assign(V('s'), Str('go')),
             If(Bin('==', P('s'), V('s')), [Ret(Bin('+', Bin('*', V('LIMIT'), I(10)), P('LIMIT')))]),
@@ -266,6 +269,10 @@ def scripts(rnd, env):
                 Assign(V('c'), V('ZERO')),
                 While(Bin('and', Un('not', V('DISABLED')), Bin('<', V('c'), I(2))), [Assign(V('c'), Bin('+', V('c'), I(1)))]),
                 Ret(Bin('+', Bin('*', V('r'), I(10)), Bin('+', V('c'), fcall('mix', a=V('ZERO'), b=V('LIMIT'), s=V('NOTHING'), f=V('DISABLED')))))])
+    out.append([Assign(V('p'), Bin('and', V('DISABLED'), fcall('touch', n=I(rnd.randint(0, 5))))),
+                Assign(V('q'), Bin('or', V('ENABLED'), fcall('touch', n=I(rnd.randint(0, 5))))),
+                If(Bin('or', Bin('and', V('p'), fcall('touch', n=I(7))), Un('not', V('q'))), [Call(fcall('maybe', n=I(0)))]),
+                SelectFrom('many', 'bs', 'B'), Ret(Un('cardinality', V('bs')))])
     out += random_scripts(rnd, env)
     return out
 
@@ -274,7 +281,7 @@ def python_calls(rnd, env):
     """invocations from Python: [(kind, namespace, name, literal arguments)]"""
     lit = lambda ty: I(rnd.randint(0, 6)) if ty == 'integer' else (Str(rnd.choice(['go', 'double', 'x'])) if ty == 'string' else B(rnd.random() < 0.5))
     calls = []
-    for name in ['fact', 'even', 'odd', 'mix', 'clobber', 'maybe', 'search', 'shadow', 'lim'] + \
+    for name in ['fact', 'even', 'odd', 'mix', 'clobber', 'maybe', 'search', 'shadow', 'lim', 'touch'] + \
             sorted(n for n in env['funcs'] if n.startswith('g') and n[1:].isdigit()):
         f = env['funcs'][name]
         ps = [(p, I(rnd.randint(0, 3)) if p == 'd' else lit(f['ptypes'][p])) for p in f['params']]
